@@ -1194,7 +1194,6 @@ theorem d_rule_step (hyp : RefHyp ctx) (f : Nat) (hR : DRule ctx f) (hAl : DAll 
         · split at h
           · simp only [Except.ok.injEq, Prod.mk.injEq] at h; exact h.2.symm
           · split at h
-            · cases h
             · simp only [Except.ok.injEq, Prod.mk.injEq] at h; exact h.2.symm
             · simp only [Except.ok.injEq, Prod.mk.injEq] at h; exact h.2.symm
       exact ⟨fun f' hf => (all_rr ctx hyp (f + 1)).1 _ _ _ _ _ hvF hn h f' hf, Fm.of_eq hnt⟩
@@ -1264,10 +1263,6 @@ theorem d_rule_step (hyp : RefHyp ctx) (f : Nat) (hR : DRule ctx f) (hAl : DAll 
           | some index =>
             rw [hidx] at h
             simp only at h
-            have hb : index + 1 < 2 ^ 31 := by
-              have := (indexById_spec hidx).1
-              have := hyp.sib parent hpD
-              omega
             have hpos : ∀ k, f ≤ k →
                 (match positionIn n (if reverse = true then
                   (List.filter (sat ctx k rule) (List.filter (fun x => x.named) parent.children)).reverse
@@ -1277,35 +1272,29 @@ theorem d_rule_step (hyp : RefHyp ctx) (f : Nat) (hR : DRule ctx f) (hAl : DAll 
               intro k hk
               rw [hkidsk k hk]
               simp [positionIn, hidx]
-            cases hI32 : isMatchedI32 a b index with
-            | none => rw [hI32] at h; cases h
-            | some x =>
-              rw [hI32] at h
-              have hx := isMatchedI32_some a b index x hb hI32
-              subst hx
-              cases hm : isMatched a b index with
-              | false =>
-                rw [hm] at h
+            cases hm : isMatched a b index with
+            | false =>
+              rw [hm] at h
+              simp only [Except.ok.injEq, Prod.mk.injEq] at h
+              exact ⟨fun k hk => by rw [hpos k hk, hm]; simp [← h.1], Fm.of_eq h.2.symm⟩
+            | true =>
+              rw [hm] at h
+              simp only at h
+              split at h
+              · cases h
+              · next v env1 hmr =>
+                obtain ⟨_, fm1⟩ := hR _ _ _ _ _ hv' hn hfr hmr
                 simp only [Except.ok.injEq, Prod.mk.injEq] at h
-                exact ⟨fun k hk => by rw [hpos k hk, hm]; simp [← h.1], Fm.of_eq h.2.symm⟩
-              | true =>
-                rw [hm] at h
-                simp only at h
-                split at h
-                · cases h
-                · next v env1 hmr =>
-                  obtain ⟨_, fm1⟩ := hR _ _ _ _ _ hv' hn hfr hmr
-                  simp only [Except.ok.injEq, Prod.mk.injEq] at h
-                  exact ⟨fun k hk => by rw [hpos k hk, hm]; simp [← h.1], h.2 ▸ fm1⟩
-                · next env1 hmr =>
-                  exfalso
-                  have hs := (hR _ _ _ _ _ hv' hn hfr hmr).1 f (Nat.le_refl _)
-                  simp only [Option.isSome_none] at hs
-                  obtain ⟨c, hc, hcid⟩ := indexById_mem hidx
-                  obtain ⟨hc1, hc2⟩ := hsub f (Nat.le_refl _) c hc
-                  have := hyp.uniq c n (hpD.child hc1) hn hcid
-                  subst this
-                  rw [hs] at hc2; cases hc2
+                exact ⟨fun k hk => by rw [hpos k hk, hm]; simp [← h.1], h.2 ▸ fm1⟩
+              · next env1 hmr =>
+                exfalso
+                have hs := (hR _ _ _ _ _ hv' hn hfr hmr).1 f (Nat.le_refl _)
+                simp only [Option.isSome_none] at hs
+                obtain ⟨c, hc, hcid⟩ := indexById_mem hidx
+                obtain ⟨hc1, hc2⟩ := hsub f (Nat.le_refl _) c hc
+                have := hyp.uniq c n (hpD.child hc1) hn hcid
+                subst this
+                rw [hs] at hc2; cases hc2
   | all rs kinds =>
     have hv' : Rule.varDisjointSeq rs = true ∧ kinds = none := by
       simpa [Rule.varDisjoint] using hv
